@@ -135,8 +135,9 @@ class ScriptedScheduler(BaseScheduler):
         self._next = 0
 
     def schedule(self, sim_time, workload, worker_pools):
-        workload.get_schedulable_tasks(sim_time, self.lookahead, self.preemptive, self.retract_schedules, worker_pools,
-                                       self.policy, self.branch_prediction_accuracy, self.release_taskgraphs)
+        offered = workload.get_schedulable_tasks(sim_time, self.lookahead, self.preemptive, self.retract_schedules, worker_pools,
+                                                 self.policy, self.branch_prediction_accuracy, self.release_taskgraphs)
+        offered_ids = {t.id for t in offered}
         out = []
         now = sim_time.to(EventTime.Unit.US).time
         if self._next < len(self._script) and self._script[self._next].get("at", 0) <= now:
@@ -164,6 +165,8 @@ class ScriptedScheduler(BaseScheduler):
                 t = tg.get_task(name) if tg is not None else None
                 if t is None or t.state not in (TaskState.VIRTUAL, TaskState.RELEASED, TaskState.SCHEDULED):
                     continue
+                if t.id not in offered_ids and not d.get("force"):
+                    continue  # a policy only answers for tasks it was offered (C10); "force": directed worlds
                 if d["do"] == "cancel":
                     out.append(Placement.create_task_cancellation(task=t))
                 elif d["do"] == "unplaced":
